@@ -36,7 +36,7 @@ posit8_t posit8_exp(posit8_t a) {
 // cmp returns -1 if a < b, 0 if a == b, and 1 if a > b
 int posit8_cmpp8(posit8_t a, posit8_t b) {
 	// posits are ordered as signed integers
-	return a.v - b.v;
+	return ((int8_t)a.v > (int8_t)b.v) - ((int8_t)a.v < (int8_t)b.v);
 }
 
 #if defined(__cplusplus) || defined(_MSC_VER)
